@@ -660,21 +660,21 @@ def configs(tier):
                     continue
                 cfgs.append(edit_cfg("", W, wrap, align, multiline=True))
     # captions
-    caps = ["a", "中 "] if quick else ["a", "ab", "中 ", "a\n", "́", "a "]
-    shapes = (("left", 2), ("right", 3)) if quick else (("left", 1), ("left", 2), ("left", 3), ("center", 3), ("right", 3), ("right", 4), ("center", 5))
+    caps = ["a", "中 "] if quick else ["a", "ab", "中 ", "a\n"]
+    shapes = (("left", 2), ("right", 3)) if quick else (("left", 1), ("left", 2), ("left", 3), ("right", 3), ("center", 4))
     for cap in caps:
         for wrap in ("space", "any", "clip"):
             for align, W in shapes:
                 cfgs.append(edit_cfg(cap, W, wrap, align, multiline=True))
     # flags
     for wrap in ("space", "any", "clip"):
-        for W in (3,) if quick else (1, 2, 3, 5):
+        for W in (3,) if quick else (2, 3, 5):
             cfgs.append(edit_cfg("", W, wrap, "left", multiline=False, allow_tab=True))
             cfgs.append(edit_cfg("a", W, wrap, "right", multiline=True, allow_tab=True, mask="*"))
             cfgs.append(edit_cfg("", W, wrap, "left", multiline=True, mask="中"))
     # bytes (UTF-8)
     for wrap in ("space", "any", "clip"):
-        for W, align in ((2, "left"),) if quick else ((1, "left"), (2, "left"), (3, "right"), (4, "center"), (5, "left")):
+        for W, align in ((2, "left"),) if quick else ((1, "left"), (2, "left"), (3, "right")):
             cfgs.append(edit_cfg("", W, wrap, align, multiline=True, unit="bytes"))
             cfgs.append(edit_cfg("a", W + 1, wrap, align, multiline=True, allow_tab=True, unit="bytes"))
     for W in (2,) if quick else (2, 3):
@@ -703,7 +703,7 @@ def text_sets(tier):
         core = list(texts_upto(full, 2)) + list(texts_upto(["a", " ", "中"], 3)) + EXTRA_TEXTS[:6]
         other = list(texts_upto(full, 2)) + EXTRA_TEXTS[:6]
     else:
-        core = list(texts_upto(full, 3)) + list(texts_upto(["a", " ", "中"], 4)) + list(texts_upto(["a", " "], 5)) + EXTRA_TEXTS
+        core = list(texts_upto(full, 3)) + list(texts_upto(["a", " ", "中"], 4)) + EXTRA_TEXTS
         other = list(texts_upto(full, 2)) + list(texts_upto(["a", " ", "\n", "中"], 3)) + EXTRA_TEXTS
     return list(dict.fromkeys(core)), list(dict.fromkeys(other))
 
@@ -724,7 +724,7 @@ def tasks_for(tier):
         inits = [(t, p) for t in texts for p in range(len(t) + 1)]
         for i in range(0, len(inits), per_task):
             depth = (3 if is_core(cfg) else 2) if quick else 4
-            tasks.append({"cfg": cfg, "inits": inits[i : i + per_task], "depth": depth, "expand_len": 8, "click_depth": 0 if quick else 1, "pref_keys": ["up", "down", "a"] if quick else PREF_KEYS})
+            tasks.append({"cfg": cfg, "inits": inits[i : i + per_task], "depth": depth, "expand_len": 8, "click_depth": 1 if (not quick and is_core(cfg)) else 0, "pref_keys": ["up", "down", "a"] if quick else PREF_KEYS})
     return tasks
 
 
@@ -793,7 +793,7 @@ def run(tier="quick", seed=0):
     nnum = len(numeric_configs(tier))
     bound = (
         f"Edit: {ncfg} configurations (wrap space/any/clip x align x width 1..{4 if tier == 'quick' else 6}; captions, multiline/allow_tab/mask, str and UTF-8 bytes) x "
-        f"{len(core_texts)} texts for the {sum(1 for c in configs(tier) if is_core(c))} plain configurations ({'all of length <= 2 over {a, space, newline, 中, U+0301}, all <= 3 over {a, space, 中}, 6 longer ones' if tier == 'quick' else 'all <= 3 over {a, space, newline, 中, U+0301}, all <= 4 over {a, space, 中}, all <= 5 over {a, space}, 11 longer ones'}) and {len(other_texts)} texts ({'all <= 2, 6 longer' if tier == 'quick' else 'all <= 2, all <= 3 without U+0301, 11 longer'}) for the others "
+        f"{len(core_texts)} texts for the {sum(1 for c in configs(tier) if is_core(c))} plain configurations ({'all of length <= 2 over {a, space, newline, 中, U+0301}, all <= 3 over {a, space, 中}, 6 longer ones' if tier == 'quick' else 'all <= 3 over {a, space, newline, 中, U+0301}, all <= 4 over {a, space, 中}, 11 longer ones (up to 9 characters)'}) and {len(other_texts)} texts ({'all <= 2, 6 longer' if tier == 'quick' else 'all <= 2, all <= 3 without U+0301, 11 longer'}) for the others "
         f"x every cursor x every event ({len(PRINT_KEYS + NAV_KEYS + UNUSED_KEYS)} keys, a click on every cell, a button-3 press), "
         f"preferred-column states expanded to event sequences of length {'3 (plain configurations) / 2 (others)' if tier == 'quick' else 4}; numeric: {nnum} configurations, all key sequences up to length {4 if tier == 'quick' else 5} over {len(NUM_KEYS)} keys from the empty widget (memoised on state)"
     )
